@@ -25,9 +25,11 @@ def budget(tier):
 
 
 def strategy(tier):
-    from bvt.props._scen import mixed
+    from bvt.props._scen import mixed, with_wal
 
-    return mixed(scenario(P), tier, ID)
+    # one scenario in six: some buses persist to a WAL and some events cannot be serialised - best-effort persistence of an
+    # inline-processed child must not reach the handler that awaits it
+    return with_wal(mixed(scenario(P), tier, ID), 6)
 
 
 def _kinds(F):
